@@ -160,7 +160,10 @@ impl CompositeCone<F> {
     { unimplemented!() }
     #[verifier::external_body]
     pub fn scaled_unit_shift(&self, z: &mut [F], alpha: F, pd: PrimalOrDualCone)
-        ensures final(z)@.len() == old(z)@.len(), self.margin(final(z)@, pd) == self.margin(old(z)@, pd) + alpha.v(),
+        // (the form PROVED for the real dispatch loop in unit `composite`: a list of zero cones only sits at max_value and stays there)
+        ensures final(z)@.len() == old(z)@.len(),
+            self.margin(final(z)@, pd) >= (if self.margin(old(z)@, pd) + alpha.v() <= f_maxval().v() { self.margin(old(z)@, pd) + alpha.v() } else { f_maxval().v() }),
+            alpha.v() >= 0real ==> self.margin(final(z)@, pd) <= self.margin(old(z)@, pd) + alpha.v(),
     { unimplemented!() }
     #[verifier::external_body]
     pub fn degree(&self) -> (r: usize) ensures r > 0 { unimplemented!() }
@@ -174,7 +177,7 @@ impl AsFloatT for usize { #[verifier::external_body] fn as_T(&self) -> (r: F) en
         // C15 (initialisation): whatever z was, it ends up strictly inside the cone, with margin at least one
         final(z)@.len() == old(z)@.len(), final(cones).margin(final(z)@, pd) >= 1real,
 //@pre
-    broadcast use real_arith;
+    broadcast use real_arith, ax_maxval;
 //@end
 pub trait Settings { fn core(&self) -> &CoreSettings<F>; }
 impl Settings for DefaultSettings<F> {
